@@ -459,7 +459,9 @@ func f32(x interface{}) interface{} {
 			out[k] = f32(e)
 		}
 		return out
-	case nil, string, bool, int, int8, int16, int32, int64, uint, uint8, uint16, uint32, uint64, float64, time.Time, ggql.Symbol, ggql.Var:
+	case time.Time:
+		return t.Format(time.RFC3339Nano) // (written as the text of the time, whatever its year)
+	case nil, string, bool, int, int8, int16, int32, int64, uint, uint8, uint16, uint32, uint64, float64, ggql.Symbol, ggql.Var:
 		return x
 	}
 	// a value of some other Go type (in an error's extensions, say) is written as the text it prints as
